@@ -9,3 +9,6 @@ import SparseSpace.Properties.C01
 #print axioms SparseSpace.C01.coeff_support
 #print axioms SparseSpace.C01.coeff_total
 #print axioms SparseSpace.C01.reachable_scheme_valid
+#print axioms SparseSpace.C01.std_perm_init
+#print axioms SparseSpace.C01.std_eq_init_lookup
+#print axioms SparseSpace.C01.combination_collapses
